@@ -27,6 +27,7 @@ func init() {
 	register(&Scenario{Prop: "C14", Name: "format-table", Race: true, Run: runFormatTable})
 	register(&Scenario{Prop: "C14", Name: "two-formatters-one-event", Race: true, Run: runTwoFormatters})
 	register(&Scenario{Prop: "C18", Name: "cloudevents", Run: runCloudEvents})
+	register(&Scenario{Prop: "C18", Name: "cloudevents-conc", Race: true, RaceFilter: c18RaceFilter, Run: runCloudEventsConc})
 }
 
 // ---- JSON value generator (recorded draws, so that an independent deep copy can be built)
@@ -966,3 +967,94 @@ func runCloudEvents(rc *RunCtx) {
 	rc.Desc = map[string]interface{}{"source_mode": srcMode, "schema_mode": schemaMode, "format": string(ff.Format), "signer": signerMode != 0, "predicate": predMode, "events": descs}
 	rc.NonTrivial = validCfg
 }
+
+// ---- C18 under concurrent callers: one FormatterFilter shared by several goroutines --------
+//
+// 2-6 tasks format events through ONE cloudevents.FormatterFilter (as several pipelines, or
+// several Sends, do). Payloads without ID() get "fresh and unique" ids: unique across all
+// events of the run, non-empty. Under the race binary any race report with a cloudevents
+// frame is a violation (the id source, the signer, the format table of distinct events).
+
+type ceConcRes struct {
+	ids  [64]string
+	errs [64]bool
+	n    int
+}
+
+//go:norace
+func (r *ceConcRes) put(id string, failed bool) {
+	if r.n < len(r.ids) {
+		r.ids[r.n], r.errs[r.n] = id, failed
+		r.n++
+	}
+}
+
+func ceConcWorker(f *cloudevents.FormatterFilter, r *ceConcRes, w, n int, format string) {
+	for i := 0; i < n; i++ {
+		simrt.Yield("ce:step")
+		e := &el.Event{Type: "signed-type", CreatedAt: time.Date(2026, 1, 2, 3, 4, 5, 0, time.UTC), Formatted: map[string][]byte{}, Payload: &cePlain{S: "m", N: w*100 + i}}
+		out, err := f.Process(context.Background(), e)
+		if err != nil || out == nil {
+			r.put("", true)
+			continue
+		}
+		b, ok := out.Format(format)
+		if !ok {
+			r.put("", true)
+			continue
+		}
+		var doc struct {
+			ID string `json:"id"`
+		}
+		if json.Unmarshal(b, &doc) != nil {
+			r.put("", true)
+			continue
+		}
+		r.put(doc.ID, false)
+	}
+}
+
+func runCloudEventsConc(rc *RunCtx) {
+	tp := rc.Tape
+	sim := rc.Sim
+	src, _ := url.Parse("https://example.com/conc")
+	f := &cloudevents.FormatterFilter{Source: src}
+	format := string(cloudevents.FormatJSON)
+	if tp.Choose(2, "signer") == 0 {
+		f.Signer = func(ctx context.Context, b []byte) (string, error) { return "sig", nil }
+		f.SignEventTypes = []string{"signed-type"}
+	}
+	nW := 2 + tp.Choose(5, "nworkers")
+	res := make([]*ceConcRes, nW)
+	for w := 0; w < nW; w++ {
+		w := w
+		res[w] = &ceConcRes{}
+		n := 1 + tp.Choose(6, "nevents")
+		sim.Spawn(fmt.Sprintf("ce%d", w), func() { ceConcWorker(f, res[w], w, n, format) })
+	}
+	sim.Run(nil)
+	rc.NonTrivial = true
+	rc.Desc = map[string]interface{}{"workers": nW, "signer": f.Signer != nil}
+	if sim.Stuck {
+		rc.Failf("C18.stuck", stuckClass(sim), "concurrent formatting did not finish: %s", strings.Join(sim.StuckInfo, "; "))
+		return
+	}
+	seen := map[string]int{}
+	for w, r := range res {
+		for i := 0; i < r.n; i++ {
+			if r.errs[i] {
+				rc.Failf("C18.spurious-error", "concurrent", "worker %d event %d: Process failed / stored no parsable document for a valid configuration", w, i)
+				continue
+			}
+			if r.ids[i] == "" {
+				rc.Failf("C18.id", "empty-concurrent", "worker %d event %d: empty id", w, i)
+			}
+			seen[r.ids[i]]++
+			if seen[r.ids[i]] > 1 {
+				rc.Failf("C18.id", "not-unique-concurrent", "id %q was handed to %d events formatted concurrently by one FormatterFilter", r.ids[i], seen[r.ids[i]])
+			}
+		}
+	}
+}
+
+func c18RaceFilter(sig string) bool { return strings.Contains(sig, "/formatter_filters/cloudevents") }
